@@ -124,6 +124,87 @@ func bigC16(run *report.Run, acc *pairAcc) {
 			count("Get", h+1, func(t *mast.Mast) error { _, err := t.Get(ctx, key, nil); return err }, false)
 			count("Insert", 2*(h+1), func(t *mast.Mast) error { return t.Insert(ctx, key, "b") }, true)
 			count("Delete", 2*(h+1), func(t *mast.Mast) error { t.Delete(ctx, key, cfg.Vals[0]); return nil }, true)
+			// persisting after one modification reads nothing that the modification has not already read
+			for _, mod := range []string{"Insert", "Delete"} {
+				mod := mod
+				store2 := cloneStore(bt.w)
+				w2 := *bt.w
+				w2.Store = store2
+				t, err := bt.root.LoadMast(ctx, w2.RemoteConfig(store2, false))
+				if err != nil {
+					continue
+				}
+				r := guardRes(func() error {
+					if mod == "Insert" {
+						return t.Insert(ctx, key, "b")
+					}
+					return t.Delete(ctx, key, cfg.Vals[0])
+				})
+				if r.Err != nil || r.Panic != nil {
+					continue
+				}
+				store2.ResetLog()
+				r = guardRes(func() error { _, err := t.MakeRoot(ctx); return err })
+				atomic.AddInt64(&evals, 1)
+				if r.Err != nil || r.Panic != nil {
+					continue
+				}
+				if n := len(store2.Calls("load")); n > 2*(h+1) {
+					acc.add(cfg, "C16", []explore.Finding{{Sig: "C16|MakeRoot-after-" + mod + "|too-many-loads", What: "MakeRoot after a single " + mod + " read more nodes than two root-to-leaf paths", Detail: fmt.Sprintf("key %v: %d loads > %d (height %d, %d entries)", key, n, 2*(h+1), h, spec.n)}}, []string{cfg.Name})
+				}
+			}
+			// navigation: placing a cursor and every single step read at most one path
+			{
+				store2 := cloneStore(bt.w)
+				w2 := *bt.w
+				w2.Store = store2
+				t, err := bt.root.LoadMast(ctx, w2.RemoteConfig(store2, false))
+				if err == nil {
+					step := func(api string, bound int, f func() error) bool {
+						store2.ResetLog()
+						r := guardRes(f)
+						atomic.AddInt64(&evals, 1)
+						if r.Err != nil || r.Panic != nil {
+							return false
+						}
+						if n := len(store2.Calls("load")); n > bound {
+							acc.add(cfg, "C16", []explore.Finding{{Sig: "C16|" + api + "|too-many-loads", What: api + " read more nodes than one root-to-leaf path", Detail: fmt.Sprintf("key %v: %d loads > %d (height %d, %d entries)", key, n, bound, h, spec.n)}}, []string{cfg.Name})
+							return false
+						}
+						return true
+					}
+					var c *mast.Cursor
+					if step("Cursor", 1, func() (err error) { c, err = t.Cursor(ctx); return }) && step("Cursor.Ceil", h+1, func() error { return c.Ceil(ctx, key) }) {
+						for j := 0; j < 3; j++ {
+							if !step("Cursor.Forward", h+1, func() error { return c.Forward(ctx) }) {
+								break
+							}
+						}
+						for j := 0; j < 5; j++ {
+							if !step("Cursor.Backward", h+1, func() error { return c.Backward(ctx) }) {
+								break
+							}
+						}
+					}
+					if i == 0 {
+						step("Cursor.Min", h+1, func() error {
+							c2, err := t.Cursor(ctx)
+							if err != nil {
+								return err
+							}
+							return c2.Min(ctx)
+						})
+						step("Cursor.Max", h+1, func() error {
+							c2, err := t.Cursor(ctx)
+							if err != nil {
+								return err
+							}
+							return c2.Max(ctx)
+						})
+						step("Iter-first-entry", h+1, func() error { return t.Iter(ctx, func(k, v interface{}) error { return mast.ErrIterDone }) })
+					}
+				}
+			}
 		})
 		// LoadMast and Clone
 		store2 := cloneStore(bt.w)
